@@ -71,6 +71,15 @@ class C04(Hist1Prop):
             x = rng.choice([hi, hi, lo, hi + w, lo - w])
             return rng.choice([x, x, gen1.nxt(x, True), gen1.nxt(x, False)])
 
+        if not kw["align"] and rng.random() < 0.6:
+            # an unaligned grid is anchored at its first value: a decimal fraction of the width on either side of 0 makes
+            # `value - times_min * width` round, so the first edge may land one ulp beside the value
+            v = rng.choice([-1, -1, 1]) * rng.choice([0.1, 0.3, 0.7, 0.9, 0.05, 1 / 3, 0.6]) * w
+            seen.append(v)
+            if rng.random() < 0.6:
+                steps.append({"t": "fill", "v": rs(v), "w": "1", "wk": "pyint"})
+            else:
+                steps.append({"t": "fill_n", "vs": gen1.enc_vals([v]), "ws": None})
         for _ in range(nsteps):
             if rng.random() < 0.5:
                 v = on_edge() if seen and rng.random() < 0.3 else values(rng, w, 1)[0]
